@@ -49,7 +49,8 @@ def parseOut? (s : String) : Option Out :=
   | k :: rest => do
     let v ← (String.ofList rest).toNat?
     if k ∈ ['T', 'K', 'W', 'S', 'H', 'M'] then pure ⟨v, true⟩
-    else if k = 'R' then pure ⟨v, false⟩ else none
+    else if k = 'R' then pure ⟨v, false⟩
+    else if k = 'D' then pure ⟨0, false⟩ else none
   | [] => none
 
 def parseLock? (s : String) : Option (Nat × Bool) :=
@@ -137,17 +138,17 @@ def renderCore (e : Env) (pool : List Tx) : Result → String
 
 /-- Op `two`: template A, then template B from a changed pool.  Templates are values, so A is
 afterwards what it was and still valid (`templates_are_values`, `template_valid`). -/
-def handleTwo (e : Env) (pool : List Tx) (ka : Nat) (rev : Bool) : String :=
+def handleTwo (e eB : Env) (pool : List Tx) (ka : Nat) (rev : Bool) : String :=
   let poolA := if rev then pool else pool.take ka
   let poolB := if rev then pool.take ka else pool
   let (a, _b) := generateTwice heapOps e poolA poolB (defaultFuel poolA) (defaultFuel poolB)
-  let b := newBlockTemplate heapOps e poolB (defaultFuel poolB)
-  "A[" ++ renderCore e poolA a ++ "] B[" ++ renderCore e poolB b ++ "] keep="
+  let b := newBlockTemplate heapOps eB poolB (defaultFuel poolB)
+  "A[" ++ renderCore e poolA a ++ "] B[" ++ renderCore eB poolB b ++ "] keep="
     ++ (match a with
         | Result.ok _ => "same:1,ccb:1,upd:1,pb:1"
         | Result.err => "-")
 
-def handle : List String → String
+def handleOne : List String → String
   | "tmpl" :: rest =>
     match rest.mapM kv? with
     | none => "bad-op"
@@ -167,8 +168,31 @@ def handle : List String → String
       match parseEnv? kvs, txToks.mapM parseTx?, (lookup kvs "ka").bind (·.toNat?),
           (lookup kvs "rev").bind parseBool? with
       | some e, some pool, some ka, some rev =>
-        if ka ≤ pool.length then handleTwo e pool ka rev else "bad-op"
+        let eB? : Option Env := match lookup kvs "polb" with
+          | none => some e
+          | some pb => match pb.splitOn ":" with
+            | [a, b, c, d] => do
+              let a ← a.toNat?
+              let b ← b.toNat?
+              let c ← c.toNat?
+              let d ← d.toInt?
+              pure { e with minWeight := a, maxWeight := b, prioSize := c, minFreeFee := d }
+            | _ => none
+        match eB? with
+        | some eB => if ka ≤ pool.length then handleTwo e eB pool ka rev else "bad-op"
+        | none => "bad-op"
       | _, _, _, _ => "bad-op"
   | _ => "bad-op"
+
+/-- split a token list at the `||` separators -/
+def splitGroups : List String → List String → List (List String)
+  | [], cur => [cur.reverse]
+  | t :: rest, cur => if t == "||" then cur.reverse :: splitGroups rest [] else splitGroups rest (t :: cur)
+
+def handle : List String → String
+  | "par" :: rest =>
+    let groups := splitGroups rest []
+    if groups.length < 2 then "bad-op" else " || ".intercalate (groups.map handleOne)
+  | toks => handleOne toks
 
 end BV.C12.Driver
